@@ -248,7 +248,8 @@ def gen_event(rng, t, m, K, horizon, kind=None, profile=None):
         n = rng.randint(1, min(3, len(inds)))
         ks = sorted(rng.sample(range(len(inds)), n))
         tiny = t["info"].get("tiny")
-        if tiny is not None and profile.get("hit_tiny_suppliers") and rng.random() < 0.8:
+        p_hit = profile.get("hit_tiny_suppliers")
+        if tiny is not None and p_hit and rng.random() < (0.8 if p_hit is True else float(p_hit)):
             # hit every producer of the product that some industry uses only marginally
             nS_ = len(t["sectors"])
             ks = [k_ for k_ in range(len(inds)) if k_ % nS_ == tiny[0]]
@@ -287,6 +288,11 @@ PROFILES = {
                     psi_choices=[0.05, 0.1, 0.3], frac_hi=0.95, arb_hi=(0.7, 0.97), rec_tau=[20, 40], rec_dur=(3, 8),
                     occ_max=3, dt=1, sparsity_choices=["dense", "tiny_input", "tiny_input", "partial_final"], hit_tiny_suppliers=True,
                     **{"class": "psi"}),
+    # an input used only marginally (below the technology threshold) whose producers are hit hard:
+    # its inventory runs out although it never constrains production
+    "nonreal": dict(events=(1, 2), kinds=["arbitrary", "arbitrary", "recovery"], horizon=(20, 35), inv_mode="short",
+                    psi_choices=[0.3, 0.5, 0.8, 1.0], frac_hi=0.9, arb_hi=(0.6, 0.97), rec_tau=[20, 40], rec_dur=(4, 10),
+                    occ_max=3, dt=1, sparsity="tiny_input", hit_tiny_suppliers=1.0),
     "shortage": dict(events=(1, 2), kinds=["recovery", "arbitrary", "rebuild"], horizon=(15, 30),
                      inv_mode="short", psi_choices=[0.1, 0.5], frac_hi=0.9,
                      sparsity_choices=["dense", "tiny_input", "random_zeros", "tiny_input", "partial_final"], hit_tiny_suppliers=True),
